@@ -245,9 +245,22 @@ class Exec:
             cands = [f for f in self.prog.by_short.get(method, []) if f.nparams == nargs and "{closure" not in f.name
                      and "<impl at" in f.name and ((1 in f.param_types and base_type_name(f.param_types[1]) == selfn) or
                                                    (nargs == 0 and base_type_name(f.ret) == selfn))]
-            if not cands and method in ("from", "try_from", "from_str", "default", "new"):
+            if not cands:
+                def ret_self(r):
+                    r = re.sub(r"^Result<(.*),[^,]*>$", r"\1", r.strip())
+                    r = re.sub(r"^Option<(.*)>$", r"\1", r.strip())
+                    return base_type_name(r)
                 cands = [f for f in self.prog.by_short.get(method, []) if f.nparams == nargs and "{closure" not in f.name
-                         and "<impl at" in f.name and base_type_name(re.sub(r"^Result<(.*),.*$", r"\1", f.ret)) == selfn]
+                         and "<impl at" in f.name and ret_self(f.ret) == selfn]
+                if len(cands) > 1:
+                    def short(t):
+                        t = re.sub(r"^Result<(.*),[^,]*>$", r"\1", t.strip())
+                        t = re.sub(r"^Option<(.*)>$", r"\1", t.strip())
+                        return re.sub(r"(\w+::)+", "", t).replace(" ", "")
+                    raw = re.sub(r"(\w+::)+", "", split_top_as(path[1:path.index(">::")])[0]).replace(" ", "")
+                    c3 = [f for f in cands if short(f.ret) == raw]
+                    if c3:
+                        cands = c3
             if len(cands) > 1:
                 raw_self = strip_generics(split_top_as(path[1:path.index(">::")] if ">::" in path else path[1:])[0]).replace("&", "").strip()
                 mods = [x for x in raw_self.split("::")[:-1] if x]
